@@ -86,7 +86,7 @@ def attenuation(ctx):
     u = U.uri_mod()
     ctx.correspondence("attenuation-vs-model")
     terms, info = [], []
-    n = ctx.n(144, 720)
+    n = ctx.n(108, 720)
     for i in range(n):
         r = ctx.rng("att", i)
         kind = U.FILE_KINDS[i % 9]
@@ -192,7 +192,7 @@ def prefixes(ctx):
     u = U.uri_mod()
     ctx.correspondence("prefix-and-context-vs-model")
     terms, info = [], []
-    n = ctx.n(90, 450)
+    n = ctx.n(63, 450)
     for i in range(n):
         r = ctx.rng("pre", i)
         kind = U.FILE_KINDS[i % 9]
@@ -257,7 +257,7 @@ def unknown_nodes(ctx):
     ctx.correspondence("unknown-node-vs-model")
     terms, info = [], []
     nm = NodeMaker(None, None, None, None, None, {"k": 3, "n": 10}, None, None)
-    n = ctx.n(260, 1300)
+    n = ctx.n(180, 1300)
     for i in range(n):
         r = ctx.rng("unk", i)
 
@@ -366,7 +366,7 @@ def histories(ctx):
     def maker():
         return NodeMaker(None, None, None, None, None, {"k": 3, "n": 10}, None, None)
     terms, info = [], []
-    n = ctx.n(36, 180)
+    n = ctx.n(27, 180)
     for i in range(n):
         r = ctx.rng("hist", i)
         kind = U.FILE_KINDS[i % 9]
